@@ -209,10 +209,11 @@ def do_replay(prop, path):
         okf, _, ffail = build.regen_facts()
         okx, _, xfail = build.regen_xlate()
         okl, leanlog = build.lake_build([prop.module, 'mqttdrv'])
+        oks = all(ok for _, ok, _ in build.lake_build_each(prop.extra_modules))   # the source-tie module(s), separately
         okh, hlog = build.build_harness()
-    scoped, _ = scope.judge(prop.module, ffail + xfail)   # failed sections / functions this property is built from
+    scoped, _ = scope.judge(prop.modules, ffail + xfail)   # failed sections / functions this property is built from
     if rp.get('kind') == 'broken-obligation' and 'ops' not in rp:
-        still = not (okf and okx and okl and okh) or bool(scoped)
+        still = not (okf and okx and okl and oks and okh) or bool(scoped)
         print('obligation %s: %s' % (rp.get('obligation'), 'still broken' if still else 'checks again'))
         if still:
             print('VIOLATION property=%s replay=%s no-failing-input-found' % (prop.pid, path))
@@ -280,32 +281,40 @@ def main(argv):
             broken.append(('regenerated translation of the whitelisted Go functions (xlate)', xlog[-6000:]))
         # a section / function that could not be regenerated (its baseline text is in the generated
         # file) is an obligation of this property only if the property is built from it
-        scoped, scope_notes = scope.judge(prop.module, ffail + xfail)
+        scoped, scope_notes = scope.judge(prop.modules, ffail + xfail)
         broken.extend(scoped)
         ctx.notes.extend(scope_notes)
         okl, leanlog = build.lake_build([prop.module, 'mqttdrv'])
         if not okl:
-            m = re.search(r'error: (\S+\.lean):(\d+)', leanlog)
-            broken.append(('lake build %s%s' % (prop.module, (' (first error at %s:%s)' % (m.group(1), m.group(2))) if m else ''),
-                           leanlog[-6000:]))
+            broken.append(('lake build %s%s' % (prop.module, build.first_error(leanlog)), leanlog[-6000:]))
             okd, _ = build.lake_build(['mqttdrv'])
         else:
             okd = True
+        built = [prop.module] if okl else []     # the modules whose theorems the kernel has accepted
+        # the source-tie module (Properties/CxxSource.lean) is built by its own lake invocation: when a translated Go
+        # function was rewritten it is the only module that stops building, and that must stop neither the audit of
+        # the main module nor the correspondence run (which is then the search for a failing input)
+        for mod, okm, mlog in build.lake_build_each(prop.extra_modules):
+            if okm:
+                built.append(mod)
+            else:
+                broken.append(('lake build %s%s' % (mod, build.first_error(mlog)), mlog[-6000:]))
         okh, hlog = build.build_harness()
         if not okh:
             broken.append(('harness build (go build -tags verif)', hlog[-6000:]))
         axioms = {}
-        if okl:
-            oka, axioms, alog = build.audit_axioms(prop.pid, prop.module)
+        if built:
+            oka, axioms, alog = build.audit_axioms(prop.pid, built)
             if not oka:
                 broken.append(('axiom audit', alog[-4000:]))
             hits = build.grep_forbidden()
             if hits:
                 broken.append(('forbidden construct in Lean sources', '\n'.join(hits)))
             if a.tier == 'thorough':
-                okc, clog = build.leanchecker(prop.module)
-                if not okc:
-                    broken.append(('leanchecker %s' % prop.module, clog[-4000:]))
+                for mod in built:
+                    okc, clog = build.leanchecker(mod)
+                    if not okc:
+                        broken.append(('leanchecker %s' % mod, clog[-4000:]))
         # the streams of this run use private copies of the two executables, taken while the build lock is
         # still held: another check running in the same tree rebuilds (and for a moment removes) the shared ones
         try:
@@ -321,9 +330,9 @@ def main(argv):
                     setattr(corr, attr, dst)
         except OSError as ex:
             ctx.notes.append('private copies of the executables not made (%s): using the shared ones' % ex)
-    theorems = build.property_theorems(prop.module)
+    theorems = build.property_theorems(prop.modules)     # main module first, then the source-tie module's
     n_obl = len(theorems)
-    n_dis = len([t for t in theorems if t in axioms]) if okl else 0
+    n_dis = len([t for t in theorems if t in axioms]) if built else 0
 
     if a.tier == 'quick':
         corr.SHRINK_SECONDS.update(total=240.0, each=90.0, spent=0.0)
@@ -412,8 +421,9 @@ def main(argv):
         'level': (_CLAIMS.get(prop.pid) or {}).get('category', prop.level),
         'coverage': {
             'obligations': max(n_obl, 1), 'discharged': n_dis if not broken else min(n_dis, max(n_obl - len(broken), 0)),
-            'checker_cmd': 'cd /verif/lean && lake build %s && lake env lean <#print axioms of every theorem in the module>%s'
-                           % (prop.module, ' && lake env leanchecker ' + prop.module if a.tier == 'thorough' else ''),
+            'checker_cmd': 'cd /verif/lean && %s && lake env lean <#print axioms of every theorem in the module%s>%s'
+                           % (' && '.join('lake build ' + m for m in prop.modules), 's' if prop.extra_modules else '',
+                              ''.join(' && lake env leanchecker ' + m for m in prop.modules) if a.tier == 'thorough' else ''),
             'trusted_base': prop.trusted + ['axioms used: ' + ', '.join(sorted({x for v in axioms.values() for x in v}) or ['none'])],
             'theorems': [{'name': t, 'axioms': axioms.get(t)} for t in theorems],
             'evaluations': ctx.evaluations, 'distinct_nontrivial': len(ctx.distinct),
